@@ -108,6 +108,7 @@ where
     trait SpliceFn {
         fn read(&mut self) -> BoxFuture<'_, IoResult<usize>>;
         fn write(&mut self, more: bool) -> BoxFuture<'_, IoResult<usize>>;
+        fn shutdown(&mut self) -> IoResult<()>;
     }
     type BoxSpliceFn = Box<dyn SpliceFn + Send>;
     struct NullFn;
@@ -116,6 +117,9 @@ where
             unreachable!()
         }
         fn write(&mut self, _more: bool) -> BoxFuture<'_, IoResult<usize>> {
+            unreachable!()
+        }
+        fn shutdown(&mut self) -> IoResult<()> {
             unreachable!()
         }
     }
@@ -136,6 +140,11 @@ where
             }
             fn write(&mut self, more: bool) -> BoxFuture<'_, IoResult<usize>> {
                 async_splice(&mut self.pipe.0, &self.dfd, self.bufsz, more).boxed()
+            }
+            fn shutdown(&mut self) -> IoResult<()> {
+                use std::os::unix::prelude::AsRawFd;
+                nix::sys::socket::shutdown(self.dfd.as_raw_fd(), nix::sys::socket::Shutdown::Write)?;
+                Ok(())
             }
         }
 
@@ -216,6 +225,13 @@ where
         s.shutdown()
             .await
             .with_context(|| format!("shutdown frame {})", dst.name))?;
+    }
+
+    // the splice path works on raw fds: pass the end of stream on like the buffered path does
+    if have_rawfd {
+        pipe_fn
+            .shutdown()
+            .with_context(|| format!("shutdown {})", dst.name))?;
     }
     #[cfg(redproxy_verif)]
     crate::vtrace::emit("half_done", serde_json::json!({"stat": Arc::as_ptr(&stat) as usize, "from": src.name}));
